@@ -17,6 +17,45 @@ PATTERNS = ('zero', 'tiny', 'one', 'large', 'backwards', 'mixed',
             'mixed_fwd')
 MAXIMA = (None, None, 0, Q, 1, 5, 1000000)
 
+# Sweep layer (declared smoke layer, like C01's engine sweep): EVERY call
+# sequence up to a small length over this alphabet, the first runs of a batch.
+SWEEP_ALPHA = tuple([o, None] for o in OPS) + (['elapsed', 1], ['leftover', True])
+NA = len(SWEEP_ALPHA)
+# (max length crossed with all five durations, max length with one seeded
+# duration); the clock pattern is seeded per run in both parts
+SWEEP = {'quick': (4, 4), 'thorough': (5, 6)}
+
+
+def _nseq(lmax):
+    return sum(NA ** k for k in range(1, lmax + 1))
+
+
+def sweep_total(tier):
+    full, deep = SWEEP[tier]
+    return _nseq(full) * len(DURATIONS) + (_nseq(deep) - _nseq(full))
+
+
+def sweep_case(tier, index):
+    """index -> (ops, duration or 'seeded')."""
+    full, deep = SWEEP[tier]
+    nfull = _nseq(full)
+    if index < nfull * len(DURATIONS):
+        dur = DURATIONS[index % len(DURATIONS)]
+        k = index // len(DURATIONS)
+    else:
+        dur = 'seeded'
+        k = nfull + (index - nfull * len(DURATIONS))
+    ln = 1
+    while k >= NA ** ln:
+        k -= NA ** ln
+        ln += 1
+    ops = []
+    for _ in range(ln):
+        ops.append(list(SWEEP_ALPHA[k % NA]))
+        k //= NA
+    ops.reverse()
+    return ops, dur
+
 
 class SimClock:
     def __init__(self, pattern, steps):
@@ -179,7 +218,8 @@ def call(watch, op, arg):
 class C13(Check):
     ID = 'C13'
     LEVEL = 'exploration'
-    RUNS = {'quick': 300000, 'thorough': 12000000}
+    RUNS = {'quick': sweep_total('quick') + 300000,
+            'thorough': sweep_total('thorough') + 12000000}
     BLOCK = 500
     RULE = ('each run: one call history (geometric length <= 40 over start, '
             'stop, resume, restart, split, elapsed(maximum), '
@@ -189,7 +229,9 @@ class C13(Check):
             'mixed) on a simulated clock that moves on every read and '
             'between calls. distinct = distinct (duration class, clock '
             'pattern, op-sequence shape up to 6 calls, set of (state, op) '
-            'transitions taken)')
+            'transitions taken). The first runs of a batch are the sweep '
+            'layer: every call sequence up to length 4 (quick) / 6 '
+            '(thorough) over a 15-symbol alphabet')
     COMPONENTS = {'real': ['oslo_utils.timeutils.StopWatch, Split'],
                   'stub': ['monotonic clock behind timeutils.now']}
     ASSUMPTIONS = ['exact equality with the reference machine is asserted '
@@ -209,6 +251,15 @@ class C13(Check):
         self.tu = timeutils
 
     def gen(self, st, tier, index, total):
+        if index < sweep_total(tier):
+            ops, dur = sweep_case(tier, index)
+            crng = st('clock')
+            pattern = crng.choice(PATTERNS)
+            if dur == 'seeded':
+                dur = st('config').choice(DURATIONS)
+            return {'duration': dur, 'pattern': pattern,
+                    'steps': gen_steps(crng, pattern), 'ops': ops,
+                    'sweep': len(ops)}
         rng = st('ops')
         n = 1
         while n < 40 and rng.random() < 0.88:
@@ -347,6 +398,8 @@ class C13(Check):
         if clock.went_back:
             bump(fa, 'clock_backward_step')
         bump(stats['families'], case['pattern'])
+        if case.get('sweep'):
+            bump(stats['families'], 'sweep/len=%d' % case['sweep'])
         stats['sim']['clock_reads'] = len(clock.log)
         stats['sim']['simulated_seconds'] = int(clock.total_advance)
         stats['sim']['calls'] = len(case['ops'])
@@ -369,6 +422,7 @@ class C13(Check):
         while size >= 1:
             for i in range(0, n, size):
                 c = copy.deepcopy(case)
+                c.pop('sweep', None)
                 del c['ops'][i:i + size]
                 if c['ops']:
                     yield c
@@ -390,7 +444,20 @@ class C13(Check):
 
     def extra_coverage(self, agg):
         tr = sorted(k[2:] for k in agg['probes'] if k.startswith('T:'))
-        return {'state_op_transitions_reached': len(tr),
+        sw = {k: v for k, v in agg['families'].items()
+              if k.startswith('sweep/')}
+        return {'sweep_layer': {
+                    'what': 'every call sequence of the stated lengths over '
+                            'the %d-symbol alphabet (13 calls + '
+                            'elapsed(maximum=1) + leftover(return_none=True))'
+                            ': lengths up to the first bound crossed with '
+                            'all five durations, up to the second bound '
+                            'with one seeded duration; clock pattern seeded '
+                            'per run. A complete sweep of a small space, '
+                            'declared as a smoke layer; the claim rests on '
+                            'the seeded search' % NA,
+                    'runs_by_length': dict(sorted(sw.items()))},
+                'state_op_transitions_reached': len(tr),
                 'state_op_transitions_possible': 3 * len(OPS),
                 'simulated_time_s': agg['sim'].get('simulated_seconds', 0)}
 
